@@ -51,6 +51,8 @@ struct vsim_engine {
   std::string smp = "serial";                  // serial | omp | perm
   std::vector<int> perm;                       // explicit permutation for "perm"
   int nthreads = 1;
+  // scripted forces (scriptedColvarForces): script commands run by run_force_callback() at every calc()
+  std::vector<std::vector<std::string> > force_script;
   // replicas (multiple walkers): this process is walker rep_index of rep_num; rep_fd[p] is a connected
   // stream socket to walker p (-1 for itself).  Empty rep_fd = no replica support (the default).
   int rep_index = 0, rep_num = 1;
@@ -176,6 +178,7 @@ public:
   }
 
   void add_energy(cvm::real e) override { bias_energy += e; energies_added.push_back(e); }
+
 
   // scripted-forces callback (scriptedColvarForces on): unset => same answer as the base class
   // (run_force_callback() below uses it when set, then the C12 `forcescript` list)
@@ -396,6 +399,16 @@ public:
   int run_force_callback() override
   {
     if (force_callback) return force_callback();
+    if (eng->force_script.size()) {
+      // (C08) full script commands given by `forcecmd cv colvar <v> addforce <f>` (`forcecmd clear` empties the list): goes through the script layer
+      int err = COLVARS_OK;
+      for (auto const &words : eng->force_script) {
+        std::vector<unsigned char *> argv;
+        for (auto const &w : words) argv.push_back((unsigned char *) w.c_str());
+        if (run_colvarscript_command(argv.size(), argv.data()) != COLVARS_OK) err = COLVARS_ERROR;
+      }
+      return err;
+    }
     if (!eng->script_forces.size()) return COLVARS_NOT_IMPLEMENTED;
     for (auto &p : eng->script_forces) {
       colvar *c = cvm::colvar_by_name(p.first);
@@ -740,6 +753,7 @@ struct vsim_session {
       cvm::clear_error();
     }
     else if (cmd == "unbuffered") { o << std::unitbuf; }   // every line reaches the pipe at once (C11: processes that get killed)
+    else if (cmd == "forcecmd") { if (a.size() == 1 && a[0] == "clear") eng.force_script.clear(); else eng.force_script.push_back(a); }
     else if (cmd == "echo") { o << line << "\n"; }
     else if (cmd == "quit") { return false; }
     else if (!exec_extra(cmd, a, is)) {
